@@ -2,7 +2,7 @@
    Exact rational arithmetic; every round(x, internal_precision) of the Python
    code is the function [rnd] (= Qred, the identity up to ==), placed at the same
    program points. *)
-From Coq Require Export QArith ZArith List Bool Lia Lqa Psatz Setoid Morphisms.
+From Coq Require Export QArith Qabs ZArith List Bool Lia Lqa Psatz Setoid Morphisms.
 Export ListNotations.
 Open Scope Q_scope.
 
